@@ -128,14 +128,12 @@ def dedupS : List String → List String
 
 def step (d : DSt) (line : String) : DSt × String :=
   match Drv.words line with
-  | ["begin", n] => match n.toNat? with
-    | some n => ({ n := n }, "ok")
-    | none => (d, "bad-op")
-  | ["begin", n, "streams"] => match n.toNat? with
-    | some n => ({ n := n }, "ok")   -- same machine; the engine makes the registrations through real replication streams
-    | none => (d, "bad-op")
-  | ["begin", n, "fixed"] => match n.toNat? with
-    | some n => ({ n := n, cfg := Cfg.fixed }, "ok")
+  | "begin" :: n :: flags =>
+    -- flags: `streams` (same machine; the engine makes the registrations through real replication streams),
+    -- `asis` (the tree before the C09 repair: announcements stamped at broadcast time); default: the current tree
+    match n.toNat? with
+    | some n => if flags.all (fun f => f == "streams" || f == "asis" || f == "fixed")
+                then ({ n := n, cfg := if flags.contains "asis" then Cfg.asIs else Cfg.fixed }, "ok") else (d, "bad-op")
     | none => (d, "bad-op")
   | ["tick"] => act d .tick
   | ["add", n, s] => match n.toNat?, s.toNat? with
